@@ -35,7 +35,24 @@ def _dtypes():
     return DTYPES
 
 
-def mkdf(dfspec):
+def mkdf(dfspec, form=0):
+    """form: 0 as built, 1 clone, 2 through a LazyFrame, 3 a slice of a longer frame, 4 rechunked concat"""
+    df = _mkdf(dfspec)
+    import polars as pl
+    k = (form // 11) % 8 if form else 0
+    if k == 1:
+        return df.clone()
+    if k == 2:
+        return df.lazy().collect()
+    if k == 3 and df.height:
+        return pl.concat([df, df]).slice(0, df.height)
+    if k == 4 and df.height >= 2:
+        h = df.height // 2
+        return pl.concat([df.slice(0, h), df.slice(h)], rechunk=False)
+    return df
+
+
+def _mkdf(dfspec):
     import polars as pl
     dt = _dtypes()
     data = {}
@@ -162,13 +179,13 @@ def build_components(spec, tmpdir=None):
     _SHARED_ARGS.clear()
     kind = spec.get("kind", "table")
     if kind == "table":
-        kw["df"] = mkdf(spec["df"])
+        kw["df"] = mkdf(spec["df"], forms)
         kw["rtf_body"] = rtf.RTFBody(**_alt_forms(spec.get("body", {}), forms))
         h = spec.get("colheader", "default")
         if h != "default":
             kw["rtf_column_header"] = _headers(rtf, h, forms)
     elif kind == "multi":
-        kw["df"] = [mkdf(s["df"]) for s in spec["sections"]]
+        kw["df"] = [mkdf(s["df"], forms) for s in spec["sections"]]
         kw["rtf_body"] = [rtf.RTFBody(**s.get("body", {})) for s in spec["sections"]]
         if spec.get("share_section_bodies"):
             # rtf_body=[b, b]: ONE body object for all sections whose body values are equal to the first one's
@@ -228,9 +245,31 @@ def apply_post(doc, spec):
     return doc
 
 
+def lifecycle(doc, forms):
+    """the document object is not always the one the constructor returned: copies, pickles and rebuilds of it
+    are the same document (selected by the spec's "_forms" number)"""
+    import copy
+    import pickle
+    k = (forms // 7) % 10 if forms else 0
+    if k == 2:
+        return copy.deepcopy(doc)
+    if k == 3:
+        return copy.copy(doc)
+    if k == 4:
+        return doc.model_copy()
+    if k == 5:
+        return doc.model_copy(deep=True)
+    if k == 6:
+        return pickle.loads(pickle.dumps(doc))
+    if k == 7:
+        return type(doc)(**{f: getattr(doc, f) for f in type(doc).model_fields})
+    return doc
+
+
 def build(spec, tmpdir=None):
     import rtflite as rtf
-    return apply_post(rtf.RTFDocument(**build_components(spec, tmpdir)), spec)
+    doc = rtf.RTFDocument(**build_components(spec, tmpdir))
+    return apply_post(lifecycle(doc, spec.get("_forms", 0)), spec)
 
 
 def strip_meta(spec):
